@@ -34,7 +34,9 @@ PLAN = {
                        ("ios", "F3", 1000), ("ios", "V1L", 800), ("panos", "P2", 1500), ("panos", "P4", 1200), ("linux", "I1", 500), ("nsx", "N1", 1500), ("nsx", "N3", None),
                        ("asav", "F5", 800), ("asav", "F6L", 480)],
                 thorough=[("asa", "F9", None), ("asa", "F2", 30000), ("asa", "F7", 10000), ("asa", "F3", 5000),
-                          ("ios", "F8", 20000), ("ios", "F3", 10000), ("ios", "F7", 5000)]),
+                          ("ios", "F8", 20000), ("ios", "F3", 10000), ("ios", "F7", 5000), ("ios", "V1L", 8000),
+                          ("panos", "P2", None), ("panos", "P4", None), ("linux", "I1", 5000), ("nsx", "N1", None), ("nsx", "N3", None),
+                          ("asav", "F5", 8000), ("asav", "F6L", 8000)]),
     "C02": dict(mode="conv", tags={"EQUIV", "FIXPOINT"},
                 quick=[("ios", "F1L", 4000), ("ios", "F1", 5000), ("ios", "F8", 5000), ("ios", "F3", 3000),
                        ("ios", "F4", 2500), ("ios", "F7", 2000), ("ios", "V1L", 3000), ("ios", "V2", 600)],
@@ -78,7 +80,8 @@ PLAN = {
                           ("asa", "F4", None), ("asa", "F7", 8000),
                           ("ios", "F1", 8000), ("ios", "F8", 8000), ("ios", "F3", 6000), ("ios", "F4", 6000), ("ios", "V1L", 5000),
                           ("linux", "R1", None), ("linux", "I1", 5000), ("linux", "I2", None),
-                          ("panos", "P1", None), ("panos", "P2", None), ("panos", "P3", None)]),
+                          ("panos", "P1", None), ("panos", "P2", None), ("panos", "P3", None),
+                          ("nsx", "N1", 6000), ("nsx", "N2", None), ("nsx", "N4", 4000)]),
 }
 
 IOS_FAMS = {"V2": {"MaxLen": 2}, "V1L": {"MaxLen": 3}, "F1L": {"MaxLen": 5}, "F1": {"MaxLen": 3}, "F3": {"MaxLen": 3}, "F4": {"MaxLen": 3}, "F7": {"MaxLen": 2},
